@@ -17,7 +17,7 @@ from ref import linre
 
 PROPERTY = "C15"
 LEVEL = "exploration"
-RULE = ("every determinate model of the generated linear RE family (C01) and 6 unit-root mixtures x 4 std vectors x "
+RULE = ("every determinate model of the generated linear RE family (C01) and 7 unit-root mixtures x 4 std vectors x "
         "orders 0..3 x {single variant, 3 variants with different stds}; distinct non-trivial = (model, std vector, variant mode)")
 MANIFEST_ENTRY = dict(level="exploration", design="DESIGN.md section 4 / C15",
     technique="bounded-exhaustive enumeration of solved generated models x std vectors x orders; independent moving-average-sum oracle cross-checked by a Kronecker Lyapunov solve",
@@ -51,6 +51,12 @@ def extra_unit_root_specs():
     spr = dict(terms=[(0, 0, 1.0), (1, 0, -1.0), (2, 0, 1.0)], const=0.0, shock=False)
     out.append(S(5, [rwa, rwb, cc, tot, spr], [dict(terms=[(0, 0, 1.0), (1, 0, -1.0)], const=0.0, shock=True),
                                               dict(terms=[(2, 0, 1.0)], const=0.0, shock=False)], False, "ur_two_symmetric"))
+    # a loading on the unit root that is tiny but far above the eigenvalue tolerance (1e-7 vs 1e-12): z = x + 1e-7*rw is
+    # non-stationary all the same, and so is the observable that reads the random walk with weight 1e-7 (round-7 seed C15_k)
+    tiny = dict(terms=[(1, 0, 1.0), (0, 0, 1e-7)], const=0.0, shock=False)
+    out.append(S(3, [rw, dict(terms=[(1, -1, 0.5)], const=0.0, shock=True), tiny],
+                 [dict(terms=[(2, 0, 1.0)], const=0.0, shock=True), dict(terms=[(1, 0, 1.0), (0, 0, 1e-7)], const=0.0, shock=False),
+                  dict(terms=[(1, 0, 1.0)], const=0.0, shock=False)], False, "ur_tiny_loading"))
     out.append(linre.oscillating_spec("two"))
     out.append(linre.oscillating_spec("one"))
     out.append(linre.shared_measurement_shock_spec())
